@@ -152,7 +152,8 @@ def dispatch (fn : String) (args : List String) (impl : String) : Option Verdict
         { app := app, run := runHandler, decode := decodeStr, env := env, now := strBytes "D", timeout := false }
       let r := serve readerSource readerIdle c ⟨[], chunks⟩
       -- long byte streams (long sessions, large echoed bodies) are compared by length and FNV-1a hash
-      let all := r.written.flatten
+      -- a WebSocket handler of the tokio harness writes `WS:<its id>` on the raw stream: which route got the upgrade is visible
+      let all := r.written.flatten ++ (match r.ws with | some i => strBytes ("WS:" ++ i) | none => [])
       let m := if all.length > 8192 then s!"W[#{all.length}:{hex64 (fnv all)}]" else s!"W[{hx all}]"
       -- the model meets the spec on all inputs (serve_meets_spec), so any other byte stream violates C01
       some { model := m, spec := some (impl == m), reason := "tokio-runtime-differs-from-the-specified-byte-stream" }
